@@ -23,6 +23,10 @@ type generatedMethod struct {
 	OriginPath []method.IndexID
 	Jen        jen.Code
 
+	// AvailableContext is set for generated methods: the context that was
+	// available when the method was created. A rebuild must see the same.
+	AvailableContext map[string]*xtype.Type
+
 	IndexID method.IndexID
 }
 
@@ -57,7 +61,11 @@ func (g *generator) buildDirtyMethods() error {
 			continue
 		}
 		genMethod.Dirty = false
-		err := g.buildMethod(genMethod, genMethod.Context)
+		context := genMethod.Context
+		if genMethod.AvailableContext != nil {
+			context = genMethod.AvailableContext
+		}
+		err := g.buildMethod(genMethod, context)
 		if err != nil {
 			err = err.Lift(&builder.Path{
 				SourceID:   "source",
@@ -560,6 +568,7 @@ func (g *generator) createSubMethod(ctx *builder.MethodContext, sourceID *xtype.
 		},
 	}
 
+	genMethod.AvailableContext = ctx.AvailableContext
 	genMethod.IndexID, _ = g.lookup.Register(genMethod, genMethod.Definition)
 
 	if err := g.buildMethod(genMethod, ctx.AvailableContext); err != nil {
